@@ -37,7 +37,7 @@ The important thing is: don't take the results of `resolve_*_type` as the actual
 from typing import Union, Callable
 
 # Local imports
-from ...portref import PortRef
+from ...portref import PortRef, ordered
 from ...connect import Connectable
 from ...signal import Signal
 from ...bundle import (
@@ -104,7 +104,7 @@ def update_ref_deps(ref: Union[PortRef, BundleRef], resolved: Connectable):
     """Update all downstream dependencies on a `Ref` after it has been resolved to `resolved`."""
 
     # Reconnect all connected ports
-    for connected_port in list(ref._connected_ports):
+    for connected_port in ordered(ref._connected_ports):
         connected_port.inst.replace(connected_port.portname, resolved)
 
     # Update all dependent slices and concats
